@@ -297,6 +297,16 @@ def run_public(spec, acc):
                 except Exception:  # noqa: BLE001
                     frames2, expect2 = [], None
                 for k, (ident, data, raw) in enumerate(frames):
+                    if c % 3 == 0 and k > 0:
+                        # between two frames other devices claim addresses (first claims and take-overs by another NAME);
+                        # addresses 2 and 25 share decimal digits with this stream's destination 255, 70 with its source 7
+                        from ..hist import claim_name
+                        for a_ in (2, 25, 70):
+                            try:
+                                dec.decode_tcp(wire.ebyte_frame(wire.can_id(6, 60928, a_, 255), claim_name(1000 + c * 7 + k, 1851).to_bytes(8, "little")))
+                            except Exception:  # noqa: BLE001
+                                pass
+                        acc.count("address_claims_between_frames")
                     if k < len(frames2):
                         try:
                             r2 = feed(dec2, fmt, *frames2[k])
